@@ -277,8 +277,9 @@ class FunctionDecoratorManager(DecoratorManager):
         data.call_ast_ctx = action_ast_ctx
 
         # Create new HASS Context with incoming as parent
-        if "context" in data.func_args and isinstance(data.func_args["context"], Context):
-            data.hass_context = Context(parent_id=data.func_args["context"].id)
+        parent = data.trigger_context.get("context", data.func_args.get("context"))
+        if isinstance(parent, Context):
+            data.hass_context = Context(parent_id=parent.id)
         else:
             data.hass_context = Context()
 
